@@ -78,7 +78,7 @@ def run(ctx):
     # specification (VM.tla) and must give the reference outcome.  A rejection localises a disagreement already
     # reported above to the compiler (VM.tla agrees with the real VM on the code, the code is wrong); a rejection
     # WITHOUT a disagreement of the real run means VM.tla is out of date: exit 2, never a violation.
-    stride = 12 if q else 2
+    stride = 30 if q else 3
     ctx.harness(['C01', 'vmdump', '-in', ctx.path('cases.ndjson'), '-stride', str(stride), '-out', ctx.path('vm1.ndjson')])
     ctx.harness(['C01', 'vmdump', '-in', ctx.path('trace.ndjson'), '-limit', str(150 if q else 1500), '-out', ctx.path('vm2.ndjson')])
     with open(ctx.path('vmcases.ndjson'), 'w') as f:
